@@ -7,43 +7,43 @@ NOTE = ("Static analysis of /repo/j1939/*.py as parsed on every run (ast; path e
         "property; the behaviour as a whole (all inputs/schedules/histories) is NOT decided. Trusted base: the engine in "
         "/verif/sa, the rule modules, the SAE tables in /verif/spec/sae.py, CPython list/dict semantics; user callbacks are external.")
 CHECKS = {
- "C01": ("R-SEG-CEIL/CONST, R-SEQ-BASE, R-KEY-ROLE, R-HASH-INJ, R-DELIVER-GUARD, R-REFRESH, R-ORDER-SEND, R-REFUSE, R-DEST-CLASS, R-DISPATCH, R-CTS-BORDER, R-GRANT-MIN, R-WINDOW-AFFINE, R-SINGLE-FRAME, R-DELIVER-ARGS, R-FORWARD-NAMES, R-ANNOUNCED-PGN, R-BAM-FRESH, R-RTS-ACCEPT (incl. no silent drop of a legal announcement), R-PAIR-ORDER, R-SESSION-FRESH on j1939_21.py / electronic_control_unit.py",
+ "C01": ("R-SEG-CEIL/CONST, R-SEQ-BASE, R-KEY-ROLE, R-HASH-INJ, R-DELIVER-GUARD, R-REFRESH, R-ORDER-SEND, R-REFUSE, R-DEST-CLASS, R-DISPATCH, R-CTS-BORDER, R-GRANT-MIN, R-WINDOW-AFFINE, R-SINGLE-FRAME, R-DELIVER-ARGS, R-FORWARD-NAMES, R-ANNOUNCED-PGN, R-BAM-FRESH, R-RTS-ACCEPT (incl. no silent drop of a legal announcement), R-PAIR-ORDER, R-SESSION-FRESH, R-REPLY-ARMS (what the CTS / end-of-message-acknowledge / abort arms must do) on j1939_21.py / electronic_control_unit.py",
          "path-sensitive dataflow + quotient/remainder and affine domains + known-bits over the AST", "3 C01"),
- "C02": ("FD twins of C01's rules plus in-order append, numpy chunking idiom, pool pairing/ownership/ordering, window bookkeeping, announced PGN, fresh BAM session, own data buffer per receive session, state-before-send, DT minimum-length test over all legal frame lengths on j1939_22.py",
+ "C02": ("FD twins of C01's rules plus in-order append, numpy chunking idiom, pool pairing/ownership/ordering, window bookkeeping, announced PGN, fresh BAM session, own data buffer per receive session, state-before-send, DT minimum-length test over all legal frame lengths, sender steps (segment index advanced, end-of-message status sent), reassembly cut to the announced size, reply arms on j1939_22.py",
          "path-sensitive dataflow + acquire/release pairing + who-may-call over the resolved call graph", "3 C02"),
  "C06": ("delivery guard, SAE timeout constants, finite deadlines, expiry shape, re-arm-or-delete with progress, wake rule, wake-up coverage of every new deadline, finished sessions due at once, fresh BAM session, refusal condition, RTS accepted unless its own key is occupied, own data buffer per receive session",
          "dominance / must-pass over enumerated paths + affine deadline forms + constant tables", "3 C06"),
- "C07": ("re-arm-or-delete on every expiry path (loops taken 0/1 times), state exhaustiveness, index bounds, job-thread subscripts, snapshots, containment, raise confinement, progress of every while-loop, no effect on own broadcast sessions for frames from source address 255",
+ "C07": ("re-arm-or-delete on every expiry path (loops taken 0/1 times), state exhaustiveness, index bounds, job-thread subscripts, snapshots, containment, raise confinement, progress of every while-loop, no effect on own broadcast sessions for frames from source address 255, no local read before assignment in any data-link-layer / ECU function",
          "path enumeration of the job-thread scans + thread-role reachability + interval bounds", "3 C07"),
  "C08": ("raise-on-interleave discipline on the shared session tables, snapshots, who deletes which table, state-before-send on both layers, number released only after the entry is deleted, refusal while the old entry exists, no object-held scratch container in methods shared by both threads, wake-up tokens consumed only by the blocking wait",
          "thread-role / ownership analysis of table operations (race-detector style, no schedule exploration)", "3 C08"),
  "C09": ("grant = min closure, responder window bookkeeping, DT typestate, hold path, window arithmetic incl. window-end test in every sending iteration, BAM/CMDT pacing re-arm, wake-up coverage",
          "affine forms + min-closure dataflow + typestate over enumerated paths", "3 C09"),
- "C10": ("FD pool acquire/release pairing and who-may-release, effect-free refusal, eventual deletion with progress, wake on abort, release-after-delete ordering, frames from 255 cannot finish a broadcast session, in-place modified bookkeeping is created per stack object",
+ "C10": ("FD pool acquire/release pairing and who-may-release, effect-free refusal, eventual deletion with progress, wake on abort, release-after-delete ordering, frames from 255 cannot finish a broadcast session, in-place modified bookkeeping is created per stack object, abort / acknowledge arms finish the send session at once",
          "acquire/release pairing + who-may-call over the resolved call graph", "3 C10"),
  "C03": ("byte/bit image of all TP.CM/TP.DT/FD builders and parsers against independent SAE tables, padding, FD length LUT, sequence base, announced packet count and PGN, wake-up coverage of paced packets, own data buffer per receive session, FD DT minimum length",
          "known-bits / bit-provenance abstract interpretation of the frame builders and parsers vs transcribed SAE tables", "3 C03"),
- "C04": ("J1939-81 decision table of the claim handler, NAME comparison operands and direction, claim broadcast to every CA (no early loop exit), veto range/timer shape, state-before-send for the first claim and on losing, every claim names the held or announced address, announced == held on entering NORMAL",
+ "C04": ("J1939-81 decision table of the claim handler, NAME comparison operands and direction, claim broadcast to every CA (no early loop exit), veto range/timer shape, state-before-send for the first claim and on losing, every claim names the held or announced address, announced == held on entering NORMAL, no local read before assignment (claim timer callback)",
          "decision-table extraction by path enumeration + propositional truth tables over canonical guard atoms", "3 C04"),
- "C05": ("listener gate formula, destination filter dominates every PDU1 dispatch and never hits PDU2, filter/dispatch loops consult every CA, rejection only after asking the CAs now, per-listener delivery formula, acceptance index follows the listener registry",
+ "C05": ("listener gate formula, destination filter dominates every PDU1 dispatch and never hits PDU2, filter/dispatch loops consult every CA, rejection only after asking the CAs now, per-listener delivery formula, acceptance index follows the listener registry, add_ca / remove_ca maintain the CA list",
          "guard dominance and formula equivalence by truth table over canonical atoms", "3 C05"),
- "C11": ("fit bound <= 64, header-size agreement, C-PG header layout and decoder, key injectivity, padding skip-compatibility, min-deadline, wake, flush, FD destination filter consults every CA",
+ "C11": ("fit bound <= 64, header-size agreement, C-PG header layout and decoder, key injectivity, padding skip-compatibility, min-deadline, wake, flush, FD destination filter consults every CA, assembled frames are sent on every path and received ones dispatched to the decoder",
          "affine bound reasoning + known-bits layout + path rules", "3 C11"),
- "C12": ("no shrink-while-iterating (interprocedural), remove-all construct, first deadline, whole-period re-arm and boundary contradiction, wake (publish before wake), liveness re-check, no early exit from the timer scan over an unordered list, wake-up tokens consumed only by the blocking wait",
+ "C12": ("no shrink-while-iterating (interprocedural), remove-all construct, first deadline, whole-period re-arm and boundary contradiction, wake (publish before wake), liveness re-check, no early exit from the timer scan over an unordered list, wake-up tokens consumed only by the blocking wait, wake-up tests acted on, no local read before assignment, CA registration entry points forward to the ECU",
          "loop/mutation analysis over the resolved call graph + affine timer arithmetic + contradiction rule on comparison boundaries", "3 C12"),
  "C13": ("who-may-send (call graph), state-guard dominance at every send entry point, source-address provenance, claim-only sender, state/address coupling, source address through the FD buffer key and the single-frame identifier, claim decision table, announced == held on entering NORMAL",
          "who-may-call + guard dominance + argument provenance (reaching definitions)", "3 C13"),
- "C14": ("request layout and decoder identity, dispatch guard, handler guard formula, dispatch loop serves every accepting CA, rejection only after asking the CAs now, converse of the handler guard (requesters 0..254), fan-out once / claim answer",
+ "C14": ("request layout and decoder identity, dispatch guard, handler guard formula, dispatch loop serves every accepting CA, rejection only after asking the CAs now, converse of the handler guard (requesters 0..254), fan-out once / claim answer, subscribe_request records the callback, add_ca registers the CA",
          "known-bits layout + guard truth tables + argument provenance", "3 C14"),
  "C15": ("about 95 proof obligations: identifier compose/parse inverses and positions, PGN fields/value/classification, NAME widths, J1939-81 positions, value/bytes views, arbitration comparison, getters store nothing or their memo is reset by every writer",
          "proof by exact abstract evaluation in a known-bits / bit-provenance domain (each obligation covers the whole input domain)", "3 C15"),
- "C16": ("DTC/DM1/DM22 layouts vs J1939-73, lamp table and its inverse decision tree, register/deregister key agreement, DM1 cycle, per-object receive-hook registration",
+ "C16": ("DTC/DM1/DM22 layouts vs J1939-73, lamp table and its inverse decision tree, register/deregister key agreement, DM1 cycle, per-object receive-hook registration, receive / send / deregistration steps (R-DM1-STEPS), no local read before assignment",
          "known-bits layout vs spec tables + constant-propagated decision tree + registry key dataflow", "3 C16"),
- "C17": ("DM14/DM15 sibling composition decode o encode = identity, DM16 prefix/extraction, single-frame threshold agreement, chunk slicing, told arguments, idle reset, end-of-message hook iff multi-packet, acknowledged transport session released at once, reply-handler state stored before the frame that is answered, every legal end-of-message acknowledge completes the read, byte shortcut only for unsigned 1-byte objects",
+ "C17": ("DM14/DM15 sibling composition decode o encode = identity, DM16 prefix/extraction, single-frame threshold agreement, chunk slicing, told arguments, idle reset, end-of-message hook iff multi-packet, acknowledged transport session released at once, reply-handler state stored before the frame that is answered, every legal end-of-message acknowledge completes the read, byte shortcut only for unsigned 1-byte objects, 17 transaction steps in server / client / facade (R-DM14-STEPS), no local read before assignment",
          "known-bits composition of sibling encoders/decoders + affine slice forms + threshold partition agreement", "3 C17"),
- "C18": ("key check dominates application callbacks and serving, error translation, bounded wait raises, restore on all exits incl. exceptional, sibling reset, key sent for every seed value, seed drawn only with the seed message, seed and state stored before the frame that is answered, refusal carries an error indicator the client reports",
+ "C18": ("key check dominates application callbacks and serving, error translation, bounded wait raises, restore on all exits incl. exceptional, sibling reset, key sent for every seed value, seed drawn only with the seed message, seed and state stored before the frame that is answered, refusal carries an error indicator the client reports, refusals run through the server's busy path and everything is reset (R-DM14-STEPS)",
          "guard dominance + acquire/release pairing with exception edges (interprocedural must-effects) + sibling cross-check", "3 C18"),
- "C19": ("admission guard first and formula, busy branch effect set and addressee, facade busy wrap, facade advances only when the server is idle, identity cleared exactly with the return to IDLE, requester / pointer / state stored before the seed message goes out",
+ "C19": ("admission guard first and formula, busy branch effect set and addressee, facade busy wrap, facade advances only when the server is idle, identity cleared exactly with the return to IDLE, requester / pointer / state stored before the seed message goes out, leaving IDLE binds requester and pointer to the frame",
          "guard formula equivalence + interprocedural field-write sets specialised to constant arguments", "3 C19"),
 }
 NA = {}
